@@ -344,6 +344,8 @@ class Run(object):
 
     def q_len(self, op):
         self.expect("len", op, len(self.trie), len(self.model))
+        # a container is true exactly when it holds something
+        self.expect("truthiness", op, bool(self.trie), bool(self.model))
 
     def judge_iteration(self, kind, got, op):
         # got: list collected from a traversal with no mutation in between
